@@ -57,6 +57,7 @@ type H struct {
 	readers       *readerSet
 	idx           int
 	realClock     bool
+	forceBig      bool // next generated transaction: zero-fee spend of the largest output
 	quiet         bool // race child: refuting observations are only counted
 	allReaders    bool
 }
@@ -343,6 +344,13 @@ func (h *H) step() {
 			h.stepInjectTie()
 		}
 		h.stepPublish()
+		return
+	}
+	if h.Wild && h.Chain.Volume >= 1<<62 && h.Rng.Intn(5) == 0 {
+		// a long-lived pooled spend of a huge output, ahead of the wild time gaps (see genTxn)
+		h.forceBig = true
+		h.stepInject(h.Pub, true)
+		h.forceBig = false
 		return
 	}
 	switch {
